@@ -255,7 +255,10 @@ func (ip *EnumInterp) resolve(f *ssa.Function, ctx Ctx, v ssa.Value) (Set, bool)
 			return ip.fieldSet(fld), true
 		}
 	case *ssa.Call:
-		if ip.AutoFields && types.Identical(x.Type(), ip.D.T) {
+		// the result of a helper of the analysed packages: union of what its
+		// returns can carry (sound without AutoFields: fields read inside the
+		// helper stay at the range of their type)
+		if types.Identical(x.Type(), ip.D.T) {
 			return ip.retSet(x)
 		}
 	}
